@@ -430,7 +430,13 @@ class Session:
                 else:
                     self.can_decrypt = False
                     return
-        self.generate_keys(self.tls_version, self.ciphersuite, self.client_random, self.server_random)
+        try:
+            self.generate_keys(self.tls_version, self.ciphersuite, self.client_random, self.server_random)
+        except Exception:
+            # a version / cipher suite / secret combination the key derivation cannot handle (e.g. a damaged ServerHello):
+            # this session cannot be decrypted, the run goes on
+            logging.error("Key derivation failed")
+            self.can_decrypt = False
 
     def handle_alert(self, alert_level):
         # Closing Connection as every error leads to immediate termination of connection
